@@ -407,6 +407,13 @@ func AddAliases(indexName string, aliases []string, orgid int64) error {
 		log.Errorf("AddAliases: len of aliases is 0. len(aliases)=%v", alLen)
 		return errors.New("len of aliases is 0")
 	}
+	// an alias is addressed wherever an index name is, so it has to be a name an index could have
+	for _, alias := range aliases {
+		if !IsValidIndexName(alias) {
+			log.Errorf("AddAliases: invalid alias=%v for indexName=%v", alias, indexName)
+			return errors.New("alias name is invalid")
+		}
+	}
 
 	currentAliases, err := GetAliases(indexName, orgid)
 	if err != nil {
